@@ -25,3 +25,7 @@ open CalmVerif.Props.C01
 #check @pretty_stream_typed
 #print axioms direct_adjacent_safe_pretty_partial
 #check @direct_adjacent_safe_pretty_partial
+#print axioms direct_adjacent_safe_meaning
+#check @direct_adjacent_safe_meaning
+#print axioms token_codes_faithful
+#check @token_codes_faithful
